@@ -32,16 +32,15 @@ theorem encode_decode' (sv1 : Bool) (pix : Array Nat) (w h nc P predictor : Nat)
 /-- the stream of the model encoder, decoded by the INDEPENDENT T.81 specification -/
 theorem encode_specDecode' (sv1 : Bool) (pix : Array Nat) (w h nc P predictor : Nat)
     (hw : 1 ≤ w ∧ w ≤ 65535) (hh : 1 ≤ h ∧ h ≤ 65535) (hc : nc = 1 ∨ nc = 3)
-    (hP : 2 ≤ P ∧ P ≤ 16) (hpr : 1 ≤ predictor ∧ predictor ≤ 7) (hpix : PixOk P w h nc pix)
-    (hedge : T81H.EdgeConform sv1 predictor w h) :
+    (hP : 2 ≤ P ∧ P ≤ 16) (hpr : predictor ≤ 7) (hpix : PixOk P w h nc pix) :
     ∃ stream s, encode sv1 pix w h nc P predictor = .ok stream ∧
       pixelsToSamples P w h nc pix = .ok s ∧
       T81H.specDecode stream =
         some { width := w, height := h, precision := P,
                planes := (List.range nc).map fun c => (List.range (w * h)).map fun i => cell s c i } := by
   obtain ⟨s, pred, bits, values, t, scan, hdr, hs, hsz, hrng, _, hpred, hopt, hv, _, _, htb, _, _, hne, hscan, _, hhdr, henc⟩ :=
-    encode_ok sv1 pix w h nc P predictor hw hh hc hP hpr.2 hpix
-  obtain ⟨hp17, hsv⟩ := pred_range hpr.2 hpred
+    encode_ok sv1 pix w h nc P predictor hw hh hc hP hpr hpix
+  obtain ⟨hp17, hsv⟩ := pred_range hpr hpred
   -- every emitted category is in the optimal table
   have hle := emittedCats_le sv1 P pred w h nc s
   obtain ⟨bits', values', hb', _, _, hmem⟩ := optimal_table_valid' _ (catFreq_lossless _ (fun k hk => hle k hk))
@@ -53,17 +52,7 @@ theorem encode_specDecode' (sv1 : Bool) (pix : Array Nat) (w h nc P predictor : 
     intro k hk
     have h16 := hle k hk
     exact (hmem k).mpr ⟨by omega, catFreq_mem _ k hk h16⟩
-  -- the edge class is about the predictor actually used
-  have hedge' : T81H.EdgeConform sv1 pred w h := by
-    cases sv1 with
-    | true => exact Or.inl rfl
-    | false =>
-      have : pred = predictor := by
-        simp only [Bool.false_eq_true, if_false] at hpred
-        have h0 : predictor ≠ 0 := by omega
-        simpa [h0] using hpred
-      rw [this]; exact hedge
   exact ⟨_, s, henc, hs,
-    T81H.specDecode_model_stream sv1 P pred w h nc ⟨bits, values'⟩ s hdr scan hw hh hc hP hp17 hsv hedge' htb hv hcat hsz hrng hhdr hscan hne⟩
+    T81H.specDecode_model_stream sv1 P pred w h nc ⟨bits, values'⟩ s hdr scan hw hh hc hP hp17 hsv htb hv hcat hsz hrng hhdr hscan hne⟩
 
 end JLL
